@@ -89,6 +89,33 @@ def differences(a, b, path=""):
     return out
 
 
+COMPACTABLE = ("goal_f", "max_fes", "max_time_millis")
+
+
+def compact_uniform(rec):
+    """
+    Canonical form of the optionally compact fields of end statistics.
+
+    moptipy documents ``goal_f``, ``max_fes`` and ``max_time_millis`` of an
+    ``EndStatistics`` record as "a number if all runs share it, else sample
+    statistics"; a ``SampleStatistics`` whose minimum equals its maximum
+    denotes the same data as the bare number. Returns how many fields were
+    found in the expanded form (``rec`` is a ``plain`` structure, changed
+    in place).
+    """
+    es = rec.get("end_statistics") if isinstance(rec, dict) else None
+    n = 0
+    if isinstance(es, dict):
+        for k in COMPACTABLE:
+            v = es.get(k)
+            if isinstance(v, dict) and v.get("__class__") == \
+                    "SampleStatistics" and v["minimum"] == v["maximum"] \
+                    and v["n"] == es.get("n"):
+                es[k] = v["minimum"]
+                n += 1
+    return n
+
+
 def top_field(path):
     """The leading attribute of a difference path (for signatures)."""
     p = path.split("[")[0]
